@@ -248,6 +248,7 @@ void DoubleUpDownCounter::Add(double value,
     OTEL_INTERNAL_LOG_WARN(
         "[DoubleUpDownCounter::Add(V,A)] Value not recorded - invalid storage for: "
         << instrument_descriptor_.name_);
+    return;
   }
   auto context = opentelemetry::context::Context{};
   return storage_->RecordDouble(value, attributes, context);
@@ -371,6 +372,7 @@ void DoubleGauge::Record(double value,
   {
     OTEL_INTERNAL_LOG_WARN("[DoubleGauge::Record(V,A)] Value not recorded - invalid storage for: "
                            << instrument_descriptor_.name_);
+    return;
   }
   auto context = opentelemetry::context::Context{};
   return storage_->RecordDouble(value, attributes, context);
